@@ -40,7 +40,8 @@ def opOf (j : Json) : Except String (Op Float) := do
 def atomOf (j : Json) : Except String (Atom Float) := do
   return { src := ← natField j "src", sfac := ← natField j "sfac", pos := ← field j "pos" >>= v3F, part := ← intField j "part",
            sof := ← floatField j "sof", u := ← field j "u" >>= floats, qpeak := ← boolField j "q", mol := ← intField j "mol",
-           an := ← natField j "an", isH := ← boolField j "h", symmgen := false }
+           an := ← natField j "an", isH := ← boolField j "h",
+           symmgen := ← (match fieldOpt j "symmgen" with | some b => bool b | none => pure false) }
 
 def needOf (j : Json) : Except String Need := do
   match ← ints j with
